@@ -43,6 +43,32 @@ func String(t *rapid.T) string {
 	}
 }
 
+// Key draws an object key: mostly from a small pool (so that siblings collide and columns line up),
+// now and then very long (far beyond any fixed padding or indentation table) or full of bytes that are
+// escaped to six bytes each.
+func Key(t *rapid.T) string {
+	switch sim.Weighted(t, "keykind", 20, 1, 1) {
+	case 1:
+		return "long_key_" + string(make([]byte, 0)) + repeatTo("abcdefghij", 120+sim.Intn(t, 300, "keylen"))
+	case 2:
+		n := 20 + sim.Intn(t, 40, "ctl")
+		b := make([]byte, n)
+		for i := range b {
+			b[i] = byte(1 + i%30)
+		}
+		return string(b)
+	}
+	return valueKeys[sim.Intn(t, len(valueKeys), "key")]
+}
+
+func repeatTo(s string, n int) string {
+	b := make([]byte, 0, n)
+	for len(b) < n {
+		b = append(b, s...)
+	}
+	return string(b[:n])
+}
+
 // Scalar draws nil / bool / int64 / finite float64 / string.
 func Scalar(t *rapid.T) any {
 	switch sim.Intn(t, 7, "skind") {
@@ -86,7 +112,7 @@ func Tree(t *rapid.T, depth int) any {
 		n := sim.Intn(t, 5, "olen")
 		m := make(map[string]any, n)
 		for i := 0; i < n; i++ {
-			m[valueKeys[sim.Intn(t, len(valueKeys), "key")]] = Tree(t, depth-1)
+			m[Key(t)] = Tree(t, depth-1)
 		}
 		return m
 	default:
